@@ -37,7 +37,9 @@ var runners = map[string]func(Config){
 	"C04": runC04,
 	"C05": runC05,
 	"C09": runC09,
+	"C10": runC10,
 	"C13": runC13,
+	"C15": runC15,
 	"C17": runC17,
 	"C18": runC18,
 	"C19": runC19,
